@@ -78,9 +78,13 @@ def mk_lambda(name, body):
 
 
 # ----------------------------------------------------------------------------- oracle
+_LOGD_TOGGLE = [0]
+
+
 def logd_at(post, name, s):
+    _LOGD_TOGGLE[0] += 1
     with quiet():
-        v = post.logd(**{name: float(s)})
+        v = post.logd(float(s)) if _LOGD_TOGGLE[0] % 2 else post.logd(**{name: float(s)})
     return scalar(v)
 
 
@@ -92,7 +96,7 @@ def gamma_logpdf(s, shape, rate):
 def fit_gap(post, name, shape, rate):
     """g(s) = logd(s) - gammalogpdf(s); returns dict(A, B, resid, mag, finite)"""
     t = 2.0 ** round(math.log2(max(shape, 0.5) / rate)) if rate > 0 and shape > 0 else 1.0
-    t = min(max(t, 2.0 ** -20), 2.0 ** 20)
+    t = min(max(t, 2.0 ** -60), 2.0 ** 60)
     grid = [t, 2 * t, 4 * t, 0.5 * t, 3 * t, 0.75 * t]
     ld = [logd_at(post, name, s) for s in grid]
     gp = [gamma_logpdf(s, shape, rate) for s in grid]
@@ -109,6 +113,11 @@ def fit_gap(post, name, shape, rate):
         pred = g[0] + A * (math.log(s) - math.log(t)) - B * (s - t)
         resid = max(resid, abs(gv - pred))
     return {"finite": True, "A": A, "B": B, "t": t, "resid": resid, "mag": mag, "grid": grid, "g": [v - g[0] for v in g]}
+
+
+def a_tol(fit):
+    """resolution of the fitted log-coefficient: float noise of the log-densities divided by log 2"""
+    return max(A_TOL, 2e-13 * fit["mag"])
 
 
 def b_tol(fit, rate):
@@ -152,7 +161,13 @@ def gen_supported(ctx, thorough):
         if i % 17 == 0:
             b = list(mean) if (meank == "vec" and datak == "vec") else b      # zero misfit
         name = rng.choice(["s", "d", "delta", "lam"])
-        specs.append({"fam": "gauss", "reg": reg, "wiring": wiring, "n": n, "fkind": fkind, "c": c, "meank": meank,
+        dkind, pkind, scale = representation(rng, i)
+        if dkind == "int":
+            b = [float(round(v)) for v in b]
+            scale = max(scale, 1.0)      # integers stay integers
+        if scale != 1.0:
+            b = [v * scale for v in b]; mean = [v * scale for v in mean]
+        specs.append({"dkind": dkind, "pkind": pkind, "fam": "gauss", "reg": reg, "wiring": wiring, "n": n, "fkind": fkind, "c": c, "meank": meank,
                       "datak": datak, "build": build, "mean": mean, "b": b, "name": name,
                       "alpha": dyadic(rng, 1, 24, 4) if rng.random() < 0.8 else 2.0 ** -rng.randint(1, 10),
                       "beta": dyadic(rng, 1, 24, 4) if rng.random() < 0.8 else 2.0 ** -rng.randint(1, 14)})
@@ -177,11 +192,59 @@ def gen_supported(ctx, thorough):
         if i % 19 == 18:
             b = list(mean)
         name = rng.choice(["d", "s", "delta"])
-        specs.append({"fam": "gmrf", "reg": reg, "order": o, "bc": bc, "pd": pd, "n": n, "fkind": fkind, "c": c,
+        dkind, pkind, scale = representation(rng, i)
+        if dkind == "int":
+            b = [float(round(v)) for v in b]
+            scale = max(scale, 1.0)      # integers stay integers
+        if scale != 1.0:
+            b = [v * scale for v in b]; mean = [v * scale for v in mean]
+        specs.append({"dkind": dkind, "pkind": pkind, "fam": "gmrf", "reg": reg, "order": o, "bc": bc, "pd": pd, "n": n, "fkind": fkind, "c": c,
                       "meank": meank, "mean": mean, "b": b, "name": name, "build": "posterior", "datak": "vec",
                       "alpha": dyadic(rng, 1, 24, 4) if rng.random() < 0.8 else 2.0 ** -rng.randint(1, 10),
                       "beta": dyadic(rng, 1, 24, 4) if rng.random() < 0.8 else 2.0 ** -rng.randint(1, 14)})
     return specs
+
+
+DKINDS = ["f64", "f64", "int", "list", "f32", "strided", "negstride", "readonly", "cuqiarray", "0d-if-1"]
+
+
+def representation(rng, i):
+    """(representation of the data array, of alpha/beta, scale factor) -- same numbers, other dtype / layout / flags"""
+    dkind = DKINDS[i % len(DKINDS)] if i % 3 == 0 else "f64"
+    pkind = rng.choice(["float", "float", "int", "array1", "npfloat"])
+    scale = rng.choice([1.0] * 6 + [2.0 ** -20, 2.0 ** 20, 2.0 ** -10, 2.0 ** 12])
+    return dkind, pkind, scale
+
+
+def as_kind(cuqi, vals, kind):
+    a = np.array(vals, dtype=float)
+    if kind == "int":
+        return a.astype(np.int64)
+    if kind == "list":
+        return [float(v) for v in a]
+    if kind == "f32":
+        return a.astype(np.float32) if np.array_equal(a.astype(np.float32).astype(float), a) else a
+    if kind == "strided":
+        big = np.full(2 * len(a), 777.0); big[::2] = a
+        return big[::2]
+    if kind == "negstride":
+        return a[::-1].copy()[::-1]
+    if kind == "readonly":
+        a = a.copy(); a.setflags(write=False)
+        return a
+    if kind == "cuqiarray":
+        return cuqi.array.CUQIarray(a, geometry=cuqi.geometry.Continuous1D(len(a)))
+    return a
+
+
+def par_kind(v, kind):
+    if kind == "int" and float(v) == int(v):
+        return int(v)
+    if kind == "array1":
+        return np.array([v])
+    if kind == "npfloat":
+        return np.float64(v)
+    return float(v)
 
 
 def conforming_callable(spec, iface):
@@ -199,8 +262,8 @@ def build_supported(cuqi, spec, f):
     D = cuqi.distribution
     from cuqi.geometry import Image2D
     nm = spec["name"]
-    prior = D.Gamma(spec["alpha"], spec["beta"], name=nm)
-    b = np.array(spec["b"], dtype=float)
+    prior = D.Gamma(par_kind(spec["alpha"], spec.get("pkind")), par_kind(spec["beta"], spec.get("pkind")), name=nm)
+    b = as_kind(cuqi, spec["b"], spec.get("dkind", "f64"))
     if spec["fam"] == "gauss":
         n = spec["n"]
         kw = {spec["wiring"]: f}
@@ -249,19 +312,24 @@ def family_key(spec):
     return f"{'Reg' if spec['reg'] else ''}GMRF:{spec['bc']}:order{spec['order']}:{spec['pd']}D"
 
 
-def run_sampler(cuqi, iface, post, nsteps=2):
-    """returns (captured calls, returned/current points) of `nsteps` steps"""
+def run_sampler(cuqi, iface, post, nsteps=2, keyword=False):
+    """returns (captured calls, returned/current points) of `nsteps` steps; every returned object is retained and
+    read again after the last step (a later step must not overwrite an earlier result)"""
     with Capture(cuqi) as cap, quiet():
-        pts = []
+        pts, kept = [], []
         if iface == "exp":
-            smp = cuqi.experimental.mcmc.Conjugate(post)
+            smp = cuqi.experimental.mcmc.Conjugate(target=post) if keyword else cuqi.experimental.mcmc.Conjugate(post)
             for _ in range(nsteps):
                 acc = smp.step()
+                kept.append(smp.current_point)
                 pts.append((scalar(smp.current_point), acc))
         else:
-            smp = cuqi.sampler.Conjugate(post)
+            smp = cuqi.sampler.Conjugate(target=post) if keyword else cuqi.sampler.Conjugate(post)
             for _ in range(nsteps):
-                pts.append((scalar(smp.step()), 1))
+                r = smp.step()
+                kept.append(r)
+                pts.append((scalar(r), 1))
+        pts = [(scalar(o), a) if scalar(o) != v else (v, a) for o, (v, a) in zip(kept, pts)]
     return cap.calls, pts
 
 
@@ -288,7 +356,7 @@ def stream_supported(ctx, cuqi, thorough):
             ctx.case(f"sample-{iface}-{spec['fam']}{'-reg' if spec['reg'] else ''}", desc, nontrivial=True)
             tie_key = f"tie:{iface}:{fk}"
             try:
-                calls, pts = run_sampler(cuqi, iface, post)
+                calls, pts = run_sampler(cuqi, iface, post, nsteps=ctx.rng.choice([1, 2, 3]), keyword=ctx.rng.random() < 0.5)
                 impl_err = None
             except Exception as e:
                 calls, pts, impl_err = [], [], f"{type(e).__name__}: {str(e)[:100]}"
@@ -331,6 +399,7 @@ def stream_supported(ctx, cuqi, thorough):
                 continue        # projected posterior has no density to compare with (tie only)
             check_exactness(ctx, tie_key + ":params", f"{iface}:{fk}", desc, spec, post, calls, model, force=not same)
     stream_retarget(ctx, cuqi, built, outs)
+    stream_conjugate_histories(ctx, cuqi, built, outs)
 
 
 def stream_retarget(ctx, cuqi, built, outs):
@@ -383,13 +452,13 @@ def check_exactness(ctx, tie_key, known_base, desc, spec, post, calls, model, fo
         # (computed from the *implementation's* shape/rate so that a wrong sampler does not blur the target tie)
         A_t = float(model["tlog"]) - (shape - 1)
         B_t = float(model["tlin"]) - rate
-        if abs(A - A_t) > A_TOL or abs(B - B_t) > max(btol, 1e-9 * abs(B_t)) or fit["resid"] > RES_TOL * fit["mag"]:
+        if abs(A - A_t) > a_tol(fit) or abs(B - B_t) > max(btol, 1e-9 * abs(B_t)) or fit["resid"] > RES_TOL * fit["mag"]:
             k = tie_key.replace(":params", "") + ":target-kernel"
             ctx.disagree(k, desc, {"tLog": str(model["tlog"]), "tLin": str(model["tlin"])}, {"A": A, "B": B, "resid": fit["resid"]},
                          "target.logd along the hyper-parameter is not the model's kernel")
     else:
         A_m = B_m = None
-    bad_shape = abs(A) > A_TOL
+    bad_shape = abs(A) > a_tol(fit)
     bad_rate = abs(B) > btol
     bad_form = fit["resid"] > RES_TOL * fit["mag"]
     if not (bad_shape or bad_rate or bad_form):
@@ -400,7 +469,7 @@ def check_exactness(ctx, tie_key, known_base, desc, spec, post, calls, model, fo
         ctx.fail(tie_key, desc, demanded, got, "density drawn from is not proportional to the target (wrong functional form)")
         return
     if bad_shape:
-        listed = known_base is not None and A_m is not None and abs(A - A_m) <= A_TOL and not force
+        listed = known_base is not None and A_m is not None and abs(A - A_m) <= a_tol(fit) and not force
         key = f"{known_base}:shape:m-r={round(-2 * A)}" if listed else tie_key
         ctx.fail(key, desc, demanded, got, "shape of the Gamma drawn from is not (rank/2 + alpha) of the target's own density")
     if bad_rate:
@@ -734,7 +803,7 @@ def stream_validation(ctx, cuqi, thorough):
             continue
         if not fit["finite"]:
             continue
-        bad = abs(fit["A"]) > A_TOL or abs(fit["B"]) > b_tol(fit, rate) or fit["resid"] > RES_TOL * fit["mag"]
+        bad = abs(fit["A"]) > a_tol(fit) or abs(fit["B"]) > b_tol(fit, rate) or fit["resid"] > RES_TOL * fit["mag"]
         if bad:
             if iface == "leg":
                 key = f"leg:no-validation:{it['label']}"
@@ -758,7 +827,7 @@ def gap_of(target, par, call):
         fit = fit_gap(target, par, shape, rate)
         if not fit["finite"]:
             return None
-        const = not (abs(fit["A"]) > A_TOL or abs(fit["B"]) > b_tol(fit, rate) or fit["resid"] > RES_TOL * fit["mag"])
+        const = not (abs(fit["A"]) > a_tol(fit) or abs(fit["B"]) > b_tol(fit, rate) or fit["resid"] > RES_TOL * fit["mag"])
         return {"shape": shape, "rate": rate, "A(log s)": fit["A"], "B(-s)": fit["B"], "resid": fit["resid"], "g-g0": fit["g"], "constant": const}
     except Exception as e:
         return {"target_logd": repr(e)[:80]}
@@ -959,7 +1028,7 @@ def structural_oracle(ctx, cuqi, it, iface, out, smp, target, tie_key, desc):
                 fit = fit_gap(target, it["par"], float(c0["shape"][0]), 1.0 / float(c0["scale"][0]))
                 if fit["finite"]:
                     got["kernel_gap"] = {"A(log s)": fit["A"], "B(-s)": fit["B"], "resid": fit["resid"], "g-g0": fit["g"],
-                                         "constant": not (abs(fit["A"]) > A_TOL or abs(fit["B"]) > b_tol(fit, 1.0 / float(c0["scale"][0])) or fit["resid"] > RES_TOL * fit["mag"])}
+                                         "constant": not (abs(fit["A"]) > a_tol(fit) or abs(fit["B"]) > b_tol(fit, 1.0 / float(c0["scale"][0])) or fit["resid"] > RES_TOL * fit["mag"])}
             except Exception as e:
                 got["target_logd"] = repr(e)[:80]
     except Exception as e:
@@ -1106,6 +1175,245 @@ def stream_direct(ctx, cuqi, thorough):
         pass
 
 
+# ----------------------------------------------------------------------------- Direct: histories on one sampler
+def stream_direct_histories(ctx, cuqi, thorough):
+    """ONE Direct sampler, several targets: random histories of sample/warmup, target re-assignment (other target, same
+    target again) and reinitialize().  Each target's `_sample` is a counting stub (value = 1000*target + index), so every
+    stored state says which target's draw it is.  ORACLE (implementation only): every stored state is the next unserved
+    draw of the target assigned *at that moment*; tie: the Lean model `mRun`."""
+    D = cuqi.distribution
+    E = cuqi.experimental.mcmc
+    rng = ctx.rng
+    makers = [lambda: D.Gaussian(np.zeros(2), 1.0), lambda: D.Gamma(2.0, 3.0), lambda: D.Gaussian(np.zeros(2), 4.0),
+              lambda: D.Uniform(np.zeros(3), np.ones(3)), lambda: D.GMRF(np.zeros(4), 2.0), lambda: D.Laplace(np.zeros(2), 1.0)]
+    runs = []
+    nruns = 200 if thorough else 30
+    for r in range(nruns):
+        k = rng.randint(2, 3)
+        ops = []
+        for _ in range(rng.randint(3, 9)):
+            u = rng.random()
+            if u < 0.5:
+                ops.append(("s", rng.choice(["sample", "warmup"]), rng.randint(1, 3)))
+            elif u < 0.85:
+                ops.append(("a", rng.randrange(k)))
+            else:
+                ops.append(("r",))
+        if r < 6:   # the minimal histories, always present
+            ops = [[("s", "sample", 2), ("a", 1), ("s", "sample", 2)], [("s", "warmup", 1), ("a", 1), ("s", "sample", 1), ("a", 0), ("s", "sample", 2)],
+                   [("s", "sample", 1), ("a", 0), ("s", "sample", 1)], [("a", 1), ("s", "sample", 2)],
+                   [("s", "sample", 1), ("a", 1), ("r",), ("s", "sample", 2)], [("s", "sample", 1), ("r",), ("a", 1), ("s", "sample", 1), ("r",), ("s", "sample", 1)]][r]
+        runs.append((k, rng.sample(range(len(makers)), k), rng.choice(["ctor", "ctor-kw", "late"]), ops))
+    lines = []
+    for k, which, how, ops in runs:
+        toks = []
+        for op in ops:
+            toks += ["s"] * op[2] if op[0] == "s" else [f"a{op[1]}"] if op[0] == "a" else ["r"]
+        lines.append("directm 0 " + " ".join(toks))
+    outs = ctx.lean.drive(lines)
+    for (k, which, how, ops), out in zip(runs, outs):
+        desc = {"direct-history": [list(o) for o in ops], "targets": which, "construction": how}
+        ctx.case("direct-history", desc)
+        key = "tie:direct:history"
+        with quiet():
+            targets = [makers[w]() for w in which]
+        counters = [[0] for _ in targets]
+        for tid, t in enumerate(targets):
+            def stub(N=1, rng=None, tid=tid, dim=t.dim):
+                counters[tid][0] += 1
+                return np.full((dim, N), 1000.0 * tid + (counters[tid][0] - 1))
+            t._sample = stub
+        expected, cur, retained = [], 0, []
+        served = [0] * k
+        try:
+            with quiet():
+                if how == "ctor":
+                    smp = E.Direct(targets[0])
+                elif how == "ctor-kw":
+                    smp = E.Direct(target=targets[0])
+                else:
+                    smp = E.Direct()
+                    smp.target = targets[0]
+                served[0] += 1
+                for op in ops:
+                    if op[0] == "s":
+                        (smp.sample if op[1] == "sample" else smp.warmup)(op[2])
+                        for _ in range(op[2]):
+                            expected.append((cur, served[cur])); served[cur] += 1
+                        retained.append((len(expected), smp._samples[-1]))
+                    elif op[0] == "a":
+                        smp.target = targets[op[1]]
+                        cur = op[1]; served[cur] += 1
+                    else:
+                        smp.reinitialize()
+                        expected = []; retained = []
+        except Exception as e:
+            ctx.disagree(key, desc, out, repr(e)[:120], "history raised")
+            ctx.fail(key, desc, "every operation of the history is legal", repr(e)[:120], "Direct raised on a legal history")
+            continue
+        got = []
+        for v in smp._samples:
+            a = np.asarray(v, dtype=float).ravel()
+            got.append((int(a[0] // 1000), int(a[0] % 1000)) if len(a) and np.all(a == a[0]) else ("?", a.tolist()))
+        m_s = [] if out.split()[0] == "_" else [tuple(int(x) for x in t.split(":")) for t in out.split()[0].split(",")]
+        m_acc = [int(v) for v in out.split()[1].split(",")]
+        if got != m_s or list(smp._acc) != m_acc:
+            ctx.disagree(key, desc, {"chain": m_s, "acc": m_acc}, {"chain": got, "acc": list(smp._acc)}, "chain of (target, draw index) differs from the model")
+        stale = [(i, obj) for i, obj in retained if i <= len(got) and tuple(got[i - 1]) != tuple(expected[i - 1])]
+        if got != expected or [c[0] for c in counters] != served:
+            ctx.fail(key, desc, {"chain (target, draw)": expected, "draws served per target": served},
+                     {"chain (target, draw)": got, "draws served per target": [c[0] for c in counters]},
+                     "a stored state is not the next draw of the target assigned at that moment (stale or re-used sampling routine)")
+    # un-scripted: same stream => the draws after a re-assignment are the NEW target's own draws
+    for i in range(len(makers) - 1):
+        ctx.case("direct-history-seeded", {"targets": [i, i + 1]})
+        key = "tie:direct:history:seeded"
+        with quiet():
+            t1, t2 = makers[i](), makers[i + 1]()
+        st = np.random.get_state()
+        try:
+            with quiet():
+                np.random.seed(ctx.seed + 31 + i)
+                smp = E.Direct(t1); smp.sample(2); smp.target = t2; smp.sample(2)
+                got = [np.asarray(v, dtype=float).ravel() for v in smp._samples]
+                np.random.seed(ctx.seed + 31 + i)
+                ref = [np.asarray(t1.sample(), dtype=float).ravel() for _ in range(3)][1:] + [np.asarray(t2.sample(), dtype=float).ravel() for _ in range(3)][1:]
+        finally:
+            np.random.set_state(st)
+        if len(got) != 4 or not all(a.shape == b.shape and np.array_equal(a, b) for a, b in zip(got, ref)):
+            ctx.disagree(key, {"targets": [i, i + 1]}, "t1 draws then t2 draws", "differs")
+            ctx.fail(key, {"targets": [i, i + 1]}, [r.tolist() for r in ref], [g.tolist() for g in got],
+                     "after re-assigning the target, Direct's draws are not the new target's sample() draws")
+
+
+# ----------------------------------------------------------------------------- Conjugate: the target changes under the sampler
+def stream_conjugate_histories(ctx, cuqi, built, outs):
+    """ONE sampler, ONE target object whose contents change after the first step: data updated in place, prior
+    shape / rate and likelihood mean re-assigned through their setters, the callable replaced.  The next step must draw
+    from the conditional of the target *as it is now* (oracle: proportionality to the current target.logd; tie: model
+    evaluated on the updated numbers)."""
+    import copy
+    rng = ctx.rng
+    cand = [(s, p, o) for (s, p, _), o in zip(built, outs) if o not in ("err", "bad-op") and not s["reg"] and s["datak"] == "vec"
+            and s.get("dkind", "f64") in ("f64", "strided", "negstride", "cuqiarray")]
+    rng.shuffle(cand)
+    cand = cand[: (60 * ctx.scale)]
+    jobs = []
+    for spec, post, _ in cand:
+        for iface in ("exp", "leg"):
+            mut = rng.choice(["data-inplace", "prior-rate", "prior-shape", "mean-setter", "callable-scaled", "data-inplace"])
+            spec2 = copy.deepcopy(spec)
+            desc = {k: spec[k] for k in spec if k not in ("mean", "b")}
+            desc.update({"history": ["step", mut, "step"], "interface": iface})
+            key = f"tie:{iface}:{family_key(spec)}:history"
+            try:
+                dist = post.likelihood.distribution
+                with Capture(cuqi) as cap, quiet():
+                    smp = cuqi.experimental.mcmc.Conjugate(post) if iface == "exp" else cuqi.sampler.Conjugate(post)
+                    smp.step()
+                    # ---- the change
+                    if mut == "data-inplace":
+                        d = post.likelihood.data
+                        if not (isinstance(d, np.ndarray) and d.flags.writeable):
+                            continue
+                        d += 1.0
+                        spec2["b"] = [float(v) for v in np.asarray(post.likelihood.data, dtype=float).ravel()]
+                    elif mut == "prior-rate":
+                        spec2["beta"] = spec["beta"] * 2 + 0.5
+                        post.prior.rate = spec2["beta"]
+                    elif mut == "prior-shape":
+                        spec2["alpha"] = spec["alpha"] + 1.5
+                        post.prior.shape = spec2["alpha"]
+                    elif mut == "mean-setter":
+                        if callable(dist.mean) or len(spec["mean"]) != len(np.asarray(dist.mean).ravel()):
+                            continue
+                        spec2["mean"] = [v + 1.0 for v in spec["mean"]]
+                        dist.mean = np.array(spec2["mean"])
+                    else:
+                        nm, w = spec["name"], spec.get("wiring", "prec")
+                        c = 1 + 3 * 2.0 ** -20 if w == "prec" else 1 - 2.0 ** -31
+                        f2 = mk_lambda(nm, f"1/({c!r}*{nm})" if w == "cov" else f"{c!r}*{nm}")
+                        setattr(dist, w, f2)
+                        spec2["_f1"] = scalar(f2(np.array([1])))
+                    ncalls = len(cap.calls)
+                    r = smp.step()
+                calls2 = cap.calls[ncalls:]
+            except Exception as e:
+                ctx.note(f"conjugate history {mut} on {family_key(spec)} raised: {repr(e)[:100]}")
+                continue
+            finally:
+                pass
+            jobs.append((spec, spec2, post, iface, mut, desc, key, calls2))
+            # undo, so that the next interface starts from the same target
+            try:
+                with quiet():
+                    if mut == "data-inplace":
+                        post.likelihood.data[...] = post.likelihood.data - 1.0
+                    elif mut == "prior-rate":
+                        post.prior.rate = spec["beta"]
+                    elif mut == "prior-shape":
+                        post.prior.shape = spec["alpha"]
+                    elif mut == "mean-setter":
+                        post.likelihood.distribution.mean = np.array(spec["mean"])
+                    else:
+                        setattr(post.likelihood.distribution, spec.get("wiring", "prec"), conforming_callable(spec, iface))
+            except Exception:
+                pass
+    f1s = {}
+    lines = []
+    for spec, spec2, post, iface, mut, desc, key, calls2 in jobs:
+        f1 = spec2.pop("_f1", None)
+        if f1 is None:
+            with quiet():
+                f1 = scalar(conforming_callable(spec, iface)(np.array([1])))
+        lines.append(model_line(spec2, f1))
+    mouts = ctx.lean.drive(lines)
+    # the oracle needs the target in its changed state again: re-apply, check, undo
+    for (spec, spec2, post, iface, mut, desc, key, calls2), mout in zip(jobs, mouts):
+        ctx.case(f"conjugate-history-{iface}", desc)
+        if mout in ("err", "bad-op") or len(calls2) != 1 or len(calls2[0]["shape"]) != 1:
+            ctx.disagree(key, desc, mout[:40], f"{len(calls2)} gamma draws", "step after the change")
+            continue
+        toks = mout.split()
+        model = {"shape": pq(toks[0]), "rate": pq(toks[1]), "tlog": pq(toks[2]), "tlin": pq(toks[3])}
+        shape, rate = float(calls2[0]["shape"][0]), 1.0 / float(calls2[0]["scale"][0])
+        same = close(shape, model["shape"], SHAPE_TOL) and close(rate, model["rate"], SHAPE_TOL)
+        if not same:
+            ctx.disagree(key + ":params", desc, [str(model["shape"]), str(model["rate"])], [shape, rate],
+                         "after the target changed, the Gamma drawn from is not the model's for the current numbers")
+        dist = post.likelihood.distribution
+        try:
+            with quiet():
+                if mut == "data-inplace":
+                    post.likelihood.data[...] = post.likelihood.data + 1.0
+                elif mut == "prior-rate":
+                    post.prior.rate = spec2["beta"]
+                elif mut == "prior-shape":
+                    post.prior.shape = spec2["alpha"]
+                elif mut == "mean-setter":
+                    dist.mean = np.array(spec2["mean"])
+                else:
+                    nm, w = spec["name"], spec.get("wiring", "prec")
+                    c = 1 + 3 * 2.0 ** -20 if w == "prec" else 1 - 2.0 ** -31
+                    setattr(dist, w, mk_lambda(nm, f"1/({c!r}*{nm})" if w == "cov" else f"{c!r}*{nm}"))
+            check_exactness(ctx, key + ":params", f"{iface}:{family_key(spec)}", desc, spec2, post, calls2, model, force=not same)
+        finally:
+            with quiet():
+                try:
+                    if mut == "data-inplace":
+                        post.likelihood.data[...] = post.likelihood.data - 1.0
+                    elif mut == "prior-rate":
+                        post.prior.rate = spec["beta"]
+                    elif mut == "prior-shape":
+                        post.prior.shape = spec["alpha"]
+                    elif mut == "mean-setter":
+                        dist.mean = np.array(spec["mean"])
+                    else:
+                        setattr(dist, spec.get("wiring", "prec"), conforming_callable(spec, iface))
+                except Exception:
+                    pass
+
+
 # ----------------------------------------------------------------------------- chains of the Conjugate sampler
 def stream_conjugate_chain(ctx, cuqi, thorough):
     D = cuqi.distribution
@@ -1139,4 +1447,5 @@ def run(ctx):
     stream_validation(ctx, cuqi, thorough)
     stream_approx(ctx, cuqi, thorough)
     stream_direct(ctx, cuqi, thorough)
+    stream_direct_histories(ctx, cuqi, thorough)
     stream_conjugate_chain(ctx, cuqi, thorough)
